@@ -15,6 +15,33 @@ CHECKS = {
  "C06": dict(level="fault_enumeration", engine="R", design="6/C06",
    technique="property-based testing with exhaustive fault enumeration: event-log invariant (no later-step event, no handler call, failing step completed) over generated programs x failing subsets",
    text="Same fault enumeration as C05 on programs that also contain block captures, let-snapshots and handlers in later steps; the oracle is an invariant over the event log of the real expansion."),
+ "C03": dict(level="exploration", engine="R", design="6/C03",
+   technique="property-based testing over harness-owned schedules: gated callbacks (blocking gates for threads, gate futures under a deterministic executor for async), invariant checked by the controller at every rendezvous and over the event log",
+   text="Generated programs with unequal depths run under generated schedules that the harness controls (release permutations of blocked branch threads; systematically enumerated and randomised wake-up orders of pending futures). The barrier invariant - nothing of step k+1 exists while a branch is still inside step k, the macro has not returned - is evaluated while the controller knows exactly who is blocked, so it cannot fire on a correct barrier whatever the timing. Interleavings inside the macro's own glue code are not controlled."),
+ "C07": dict(level="exploration", engine="R", design="6/C07",
+   technique="metamorphic property-based testing: the same generated program rendered under the three macro names of its class, results / callback sequences / concurrency signatures compared with each other (no model)",
+   text="Each generated program is compiled under plain, spawn and alias macro names and run under identical enumerated failure plans; the oracle is agreement among the three (results; per-branch callback sequences; thread-name signature; first-poll arrival count distinguishing spawned from inline futures), plus type ascription of the expected result type."),
+ "C08": dict(level="exploration", engine="R", design="6/C08",
+   technique="property-based testing over harness-owned thread schedules: rendezvous at blocking gates, thread identity and name recorded by every callback",
+   text="All gated callbacks of a multi-branch step must arrive while every gate is held closed (a branch waiting for a sibling could not), on distinct non-caller threads with the documented names; single-active steps run on the calling thread; the caller is observed not to continue before the last release. The only wall-clock element is the rendezvous deadline (10 s, confirmed once with 20 s) on the failing path."),
+ "C09": dict(level="exploration", engine="R", design="6/C09",
+   technique="property-based testing under a deterministic executor: manual polling with a flag waker inside a current_thread tokio runtime, gate futures opened in systematically enumerated and randomised orders with batches and spurious polls",
+   text="Laziness (nothing logged before the first poll, nor when dropped unpolled), step-internal concurrency (every active branch reaches its first pending point; an opened branch reaches its next one while siblings are pending), wake-up propagation and completion with the model's value are checked for every generated wake-up order; a hang shows deterministically as 'all gates open, root pending, not notified'. Multi-threaded tokio schedulers are not explored."),
+ "C10": dict(level="exploration", engine="R", design="6/C10",
+   technique="property-based testing: event multiset and per-branch callback order of generated programs vs the reference model, clone- and drop-counting tokens",
+   text="Every evaluation of a user expression is an event; the multiset of events of a run must equal the model's (exactly once / exactly as often as the method calls it), clone counter 0, no live token after the result is dropped. Grid operators only (iterator callbacks and fold operands are covered by the chain generator once C01 is built)."),
+ "C11": dict(level="exploration", engine="R", design="6/C11",
+   technique="property-based testing: ordering invariant over the event log of generated programs with block operands on every hoistable grid position",
+   text="Capture phase of every executed step must be exactly the model's sequence (branch-then-position), after all earlier-step events and before all other events of its own step, also for captures inside nested wrappers and in thread/task-spawning macros."),
+ "C12": dict(level="exploration", engine="R", design="6/C12",
+   technique="property-based testing: snapshots of let-names taken inside generated block captures vs the reference model; result compared with the name-free model",
+   text="Random subsets of branches are named, captures of later steps snapshot random names (also of finished branches); every snapshot must equal the named branch's latest step result and the macro's value must be what the model (which ignores names) predicts."),
+ "C13": dict(level="exploration", engine="R", design="6/C13",
+   technique="property-based testing with fault enumeration: handler-call events and results of generated (macro x handler kind x position) programs under enumerated failure plans",
+   text="Legal handler kinds at every position among 1-5 branches under all 12 macro names, failure plans enumerated; handler called exactly once iff documented, with the values in branch order (argument hash), async handler futures run. Rejection of illegal kinds / second handlers is checked separately at library level (engine L) - not yet part of this check."),
+ "C18": dict(level="fault_enumeration", engine="R", design="6/C18",
+   technique="fault injection enumerated over every evaluation event of generated programs: child processes with catch_unwind (sync / threads), deterministic executor with catch_unwind around each poll (async)",
+   text="Every single event position of each generated program (initial value, operand, callback, capture, handler expression, handler call) is made to panic in turn; the panic must be observed by the caller, no later-step event may exist, and an async future must not be left pending with nothing outstanding."),
 }
 NOT_YET = "check not built yet in this session; to be decided by generated-input search as described in DESIGN.md"
 def main():
